@@ -434,8 +434,9 @@ def run_determinism():
                 res = list(ex.map(lambda s: scan(b, mode, s[0], s[1], os.devnull), spans))
             d = sum(int(r[2]["digest"], 16) for r in res) % 2**64
             tr = sum(r[2]["preemptions"] for r in res)
-            digests.append((d, tr))
-            print(f"  {mode:6s} workers={workers:2d}: digest=0x{d:016x} runs={sum(r[2]['runs'] for r in res)} preemptions={tr}")
+            ns = sum(r[2].get("nested_calls_delivered", 0) for r in res)
+            digests.append((d, tr, ns))
+            print(f"  {mode:6s} workers={workers:2d}: digest=0x{d:016x} runs={sum(r[2]['runs'] for r in res)} preemptions={tr} nested_calls_delivered={ns}")
         ok = ok and len(set(digests)) == 1
     print("determinism:", "OK (identical digests and decision counts)" if ok else "FAILED")
     return 0 if ok else 2
